@@ -21,13 +21,14 @@ type requestStream struct {
 	totalBytesRead  int
 	chunkLeft       int
 	chunkedEOF      bool
+	trailerCut      bool
 }
 
 // drained reports whether the whole framed body has been taken off the connection.
 func (rs *requestStream) drained() bool {
 	contentLength := rs.header.ContentLength()
 	if contentLength == -1 {
-		return rs.chunkedEOF
+		return rs.chunkedEOF && !rs.trailerCut
 	}
 	return rs.totalBytesRead >= contentLength || int(rs.prefetchedBytes.Size()) >= contentLength
 }
@@ -52,6 +53,8 @@ func (rs *requestStream) Read(p []byte) (int, error) {
 					return 0, err
 				}
 				rs.chunkedEOF = true
+				// The input ended before the trailer section was complete.
+				rs.trailerCut = err == io.EOF
 				return 0, io.EOF
 			}
 			rs.chunkLeft = chunkSize
@@ -113,6 +116,7 @@ func releaseRequestStream(rs *requestStream) {
 	rs.totalBytesRead = 0
 	rs.chunkLeft = 0
 	rs.chunkedEOF = false
+	rs.trailerCut = false
 	rs.reader = nil
 	rs.header = nil
 	requestStreamPool.Put(rs)
